@@ -186,6 +186,27 @@ def _work(job: t.Tuple[t.Any, ...]) -> evid.Local:
                 if r:
                     loc.violation(r[0], r[1], {"kind": kind, "text": s})
         loc.distinct.add((fam, kind, lo))
+    elif fam == "large":
+        # very long lists / many extensions / huge numbers / case variants: single sentences outside the product
+        big = 1500
+        names = " ".join("'n%d'" % i for i in range(big))
+        oids = " $ ".join(("a%d" % i if i % 2 else "2.5.4.%d" % i) for i in range(big))
+        vals = " ".join("'v%d'" % i for i in range(big))
+        exts = " ".join("X-K%s 'v%d'" % ("".join("abcdefghij"[int(c)] for c in str(i)), i) for i in range(300))
+        cases = {
+            "oc": [f"( 1.2 NAME ( {names} ) SUP ( {oids} ) MUST ( {oids} ) X-A ( {vals} ) )", f"( 1.2 NAME 'CN' SUP TOP MAY ( top $ Top $ TOP ) {exts} )", "( 1.2 NAME ( 'x' 'X' ) DESC 'd' X-A 'p' X-a 'q' )"],
+            "at": [f"( 1.2 NAME ( {names} ) SYNTAX 1.3.6.1{{2147483648}} X-A ( {vals} ) )", "( 1.2 SYNTAX 1.3.6.1{1000000000000000000000000000000} )", "( 1.2 SUP NAME EQUALITY Name SYNTAX '1.3.6.1{4294967296}' )",
+                   f"( 1.2 NAME 'cn' {exts} )"],
+            "dcr": [f"( 1.2 AUX ( {oids} ) MUST ( {oids} ) MAY ( {oids} ) NOT ( {oids} ) X-A ( {vals} ) )", f"( 1.2 NAME ( {names} ) {exts} )"],
+        }
+        for kind, ss in cases.items():
+            for s in ss:
+                loc.add("states")
+                loc.add("transitions", 2)
+                r = check_sentence(kind, s)
+                if r:
+                    loc.violation(r[0], r[1][:600], {"kind": kind, "text": s if len(s) < 3000 else None, "large": ss.index(s)})
+        loc.distinct.add(("large",))
     elif fam == "tok":
         ln, first = job[1], job[2]
         for rest in itertools.product(TOKENS, repeat=ln - 1):
@@ -230,6 +251,7 @@ def run(ctx: evid.Ctx) -> None:
     jobs: t.List[t.Tuple[t.Any, ...]] = []
     for k in CLS:
         jobs += [("gram", k, a, b) for a, b in par.split(len(_X["combos"][k]), 96 if thorough else 32)]
+    jobs.append(("large",))
     maxtok = 5 if thorough else 4
     for ln in range(1, maxtok + 1):
         jobs += [("tok", ln, tk) for tk in TOKENS]
